@@ -171,6 +171,18 @@ def codec_known(enc):
         return True
 
 
+def has_tag(v):
+    if isinstance(v, dict):
+        if len(v) == 1 and next(iter(v)).startswith('$'):
+            return True
+
+        return any(has_tag(x) for x in v.values())
+    elif isinstance(v, list):
+        return any(has_tag(x) for x in v)
+
+    return False
+
+
 class RefWriter(object):
     """Spec serializer driven by the same calls as DiffXWriter."""
 
@@ -206,6 +218,19 @@ class RefWriter(object):
         unencodable text."""
         sid = self.would_write(op)
         name = op['op']
+        own = op.get('encoding')
+
+        # scenario values tagged {"$bytes": ..} / {"$float": ..} / ... stand
+        # for Python values JSON cannot express: never a valid argument here
+        if any(has_tag(v) for k, v in op.items() if k != 'op'):
+            return REJECT_ARG
+
+        # an encoding argument outside "a known codec name that can stand
+        # as an option value" is outside the domain of valid arguments
+        if own is not None and not (
+                isinstance(own, str) and own and codec_known(own) and
+                VAL_RE.match(own.encode('utf-8', 'replace'))):
+            return REJECT_ARG
 
         if name in ('new_change', 'new_file'):
             return ACCEPT if self.legal(sid) else REJECT_ORDER
@@ -220,6 +245,11 @@ class RefWriter(object):
             if op.get('mimetype') is not None and \
                op['mimetype'] not in MIMETYPES:
                 return REJECT_ARG
+
+            ind = op.get('indent', 4)
+
+            if not isinstance(ind, int) or isinstance(ind, bool) or ind < 0:
+                return REJECT_ARG
         elif name == 'write_meta':
             md = op.get('metadata')
 
@@ -228,8 +258,20 @@ class RefWriter(object):
 
             if op.get('meta_format', 'json') != 'json':
                 return REJECT_ARG
+
+            try:
+                if json.loads(canon_json(md)) != md:
+                    return REJECT_ARG       # not JSON-native (NaN, ...)
+            except (TypeError, ValueError):
+                return REJECT_ARG
         elif name == 'write_diff':
-            if op.get('content_hex') is None or op.get('content_hex') == '':
+            if 'content' in op or not isinstance(op.get('content_hex'), str) \
+               or op.get('content_hex') == '':
+                return REJECT_ARG
+
+            try:
+                bytes.fromhex(op['content_hex'])
+            except ValueError:
                 return REJECT_ARG
 
             if op.get('diff_type') is not None and \
